@@ -28,7 +28,8 @@ static uint64_t pick_mask(Rng& r, const int* sites, int n) {
 }
 
 // ---- URLPattern workload ---------------------------------------------------
-static const char* const kLit[] = {"foo", "bar", "books", "123", "old", "new", "a.b", "index.html", "x-y_z~", "Caf%C3%A9", "A"};
+static const char* const kLit[] = {"foo", "bar", "books", "123", "old", "new", "a.b", "index.html", "x-y_z~", "Caf%C3%A9", "A",
+                                    "a^b", "[top]", "x@y", "p|q", "Mixed-Case", "sort=~name", "q`r", "~", "]["};
 static std::string gen_pat_piece(Rng& r) {
   switch (r.below(12)) {
     case 0: return "*";
@@ -71,7 +72,7 @@ static Op gen_pattern_op(Rng& r, bool with_input) {
   }
   op.kind = OP_PATTERN;
   op.args.assign(18, std::nullopt);
-  bool ic = r.chance(1, 6);
+  bool ic = r.chance(1, 4);
   int ptype = r.chance(1, 2) ? 1 : 0;
   static const char* const hostp[] = {"example.com", "*.example.com", ":sub.example.com", "{www.}?example.com",
                                       "*", "(.*)\\.example\\.com", "EXAMPLE.com", "ex\xc3\xa4mple.com", "127.0.0.1", "[::1]"};
@@ -81,7 +82,7 @@ static Op gen_pattern_op(Rng& r, bool with_input) {
     switch (r.below(4)) {
       case 0: s = gen_pat_path(r); break;  // relative: needs base
       case 1: s = std::string(pick(r, protop)) + "://" + pick(r, hostp) + gen_pat_path(r); break;
-      case 2: s = std::string("https://") + pick(r, hostp) + gen_pat_path(r) + (r.chance(1, 2) ? "?q=:v" : "") + (r.chance(1, 3) ? "#:h" : ""); break;
+      case 2: s = std::string("https://") + pick(r, hostp) + gen_pat_path(r) + (r.chance(1, 2) ? (r.chance(1, 2) ? "?q=:v" : "?x=1") : "") + (r.chance(1, 3) ? (r.chance(1, 2) ? "#:h" : "#frag") : ""); break;
       default: s = std::string("https://") + pick(r, hostp) + ":" + pickl(r, {"443", "8080", ":port", "*", "(\\d+)"}) + gen_pat_path(r); break;
     }
     op.args[0] = s;
@@ -91,8 +92,8 @@ static Op gen_pattern_op(Rng& r, bool with_input) {
     if (r.chance(1, 2)) op.args[3] = pick(r, hostp);
     if (r.chance(1, 4)) op.args[4] = pickl(r, {"443", "80", "8080", "*", ":port", ""});
     if (r.chance(3, 4)) op.args[5] = gen_pat_path(r);
-    if (r.chance(1, 4)) op.args[6] = pickl(r, {"q=:v", "*", "a=b", ""});
-    if (r.chance(1, 5)) op.args[7] = pickl(r, {":h", "*", "frag", ""});
+    if (r.chance(1, 4)) op.args[6] = r.chance(1, 2) ? std::string(pick(r, kLit)) : std::string(pickl(r, {"q=:v", "*", "a=b", ""}));
+    if (r.chance(1, 5)) op.args[7] = r.chance(1, 2) ? std::string(pick(r, kLit)) : std::string(pickl(r, {":h", "*", "frag", ""}));
     if (r.chance(1, 8)) op.args[1] = pickl(r, {"user", "*", ":u"});
     if (r.chance(1, 6)) op.args[8] = "https://example.com/base/";
   }
@@ -104,11 +105,36 @@ static Op gen_pattern_op(Rng& r, bool with_input) {
     std::string u = std::string(pickl(r, {"https", "http", "ws", "foo"})) + "://" + pick(r, hosts);
     if (r.chance(1, 4)) u += pickl(r, {":443", ":8080", ":80"});
     u += gen_in_path(r);
-    if (r.chance(1, 3)) u += pickl(r, {"?q=1", "?a=b", "?"});
-    if (r.chance(1, 4)) u += pickl(r, {"#frag", "#", "#x"});
+    if (r.chance(1, 3)) u += r.chance(1, 2) ? std::string("?") + pick(r, kLit) : std::string(pickl(r, {"?q=1", "?a=b", "?"}));
+    if (r.chance(1, 4)) u += r.chance(1, 2) ? std::string("#") + pick(r, kLit) : std::string(pickl(r, {"#frag", "#", "#x"}));
     if (r.chance(1, 10)) {
       u = gen_in_path(r);
       op.args[10] = "https://example.com/base/";
+    }
+    if (r.chance(1, 4)) {
+      // near miss: flip bit 0x20 of one character after the authority (letter case, or the punctuation partner
+      // ^~ [{ ]} \| @` that a careless case-insensitive comparison would fold)
+      size_t from = u.find("://");
+      from = from == std::string::npos ? 0 : u.find('/', from + 3);
+      if (from != std::string::npos && from + 1 < u.size()) {
+        size_t pos = from + 1 + r.below(uint32_t(u.size() - from - 1));
+        unsigned char c = (unsigned char)u[pos];
+        if (c >= 0x40 && c < 0x7f && c != '\\' && c != '|') u[pos] = char(c ^ 0x20);
+      }
+    }
+    if (r.chance(1, 8)) {
+      // base variety for the input: unparsable, other scheme, same scheme with a scheme-relative input
+      switch (r.below(4)) {
+        case 0: op.args[10] = pickl(r, {"not a url", "", "//no-scheme", "http://[::1"}); break;
+        case 1: op.args[10] = pickl(r, {"http://other.org/dir/file", "foo://h/p", "https://example.com:8080/x/y?q#f"}); break;
+        default: {
+          size_t c = u.find("://");
+          if (c != std::string::npos) {
+            u = u.substr(0, c + 1) + gen_in_path(r).substr(1);  // "https:books/old"
+            op.args[10] = std::string(pickl(r, {"https", "http", "ws", "foo"})) + "://example.com/docs/index.html";
+          }
+        }
+      }
     }
     op.args[9] = u;
   }
@@ -128,7 +154,7 @@ static Op gen_component_op(Rng& r) {
     case 0: v = pickl(r, {"https", "HTTP", "foo", "a+b", "ws:", "1x", "f\xc3\xb6o", "file"}); break;
     case 3: {
       switch (r.below(6)) {
-        case 0: v = gen_host(r); break;
+        case 0: v = r.chance(1, 2) ? gen_ipv4ish_host(r) : gen_host(r); break;
         case 1: v = gen_label(r, r.range(1, 20)) + ".com"; break;
         case 2: v = pickl(r, {"0", "0x7f.1", "1.2.3.4", "1.2.3", "127.1", "0x", "1.", "09", "4294967296", "1.2.3.4.5"}); break;
         case 3: v = pickl(r, {"xn--a", "xn--9ca", "XN--9ca", "ex\xc3\xa4mple.com", "EXAMPLE.com", "a_b", "a b", "a%41", "[::1]", "[::1"}); break;
@@ -174,6 +200,83 @@ static Op gen_component_op(Rng& r) {
   return op;
 }
 
+// C15 "never change the outcome" pairs: the same pattern reached two ways.
+//   inherit : {pathname: <relative>, baseURL: B}  vs  the components of B spelled out (escaped) with the directory of
+//             B's path prepended to the relative pathname - what the Standard's "process a URLPatternInit" computes
+//   port    : {protocol: P, port: <default port of P>}  vs  {protocol: P, port: ""}
+static std::string esc_pattern(std::string_view v) {  // URLPattern "escape a pattern string" (own implementation)
+  std::string o;
+  for (char c : v) {
+    if (strchr("+*?:{}()\\", c) && c != 0) o += '\\';
+    o += c;
+  }
+  return o;
+}
+static Op gen_pair_op(Rng& r, std::string& kind) {
+  Op op;
+  op.kind = OP_PATTERN;
+  op.args.assign(18, std::nullopt);
+  op.sub = uint8_t((r.chance(1, 8) ? 1 : 0) | (1 << 1) | (0 << 2));
+  if (r.chance(1, 4)) {
+    kind = "port";
+    static const char* const pp[][2] = {{"https", "443"}, {"http", "80"}, {"ws", "80"}, {"wss", "443"}, {"ftp", "21"},
+                                        {"https", "80"}, {"foo", "443"}, {"http", "8080"}, {"HTTPS", "443"}, {"https", "0443"}};
+    auto& e = pp[r.below(10)];
+    op.args[0] = e[0];
+    op.args[4] = e[1];
+    if (r.chance(1, 2)) op.args[3] = "example.com";
+    if (r.chance(1, 3)) op.args[5] = gen_pat_path(r);
+    return op;
+  }
+  kind = "inherit";
+  // relative pathname: literal and pattern pieces, never starting with '/'
+  std::string rel = gen_pat_path(r);
+  while (!rel.empty() && rel[0] == '/') rel.erase(0, 1);
+  if (rel.empty()) rel = pick(r, kLit);
+  op.args[5] = rel;
+  // base URL whose directory may contain pattern-syntax characters
+  static const char* const dirs[] = {"a(b)", "v1:beta", "c++", "x*y", "{b}", "plain", "a.b", "q+", "(", ":", "deep/er", "sp ace", "caf\xc3\xa9", "~u", "a\\b"};
+  std::string b = std::string(pickl(r, {"https", "http", "ws", "foo", "https"})) + "://" +
+                  pickl(r, {"example.com", "EXAMPLE.com", "sub.example.org", "127.0.0.1", "ex\xc3\xa4mple.com"});
+  if (r.chance(1, 4)) b += pickl(r, {":8080", ":443", ":80", ":21"});
+  int n = r.below(4);
+  for (int i = 0; i < n; i++) b += std::string("/") + pick(r, dirs);
+  b += r.chance(1, 4) ? "" : std::string("/") + pickl(r, {"index.html", "c", "file(1)", "", "x:y"});
+  if (r.chance(1, 5)) b += "?q=1";
+  if (r.chance(1, 6)) b += "#frag";
+  op.args[8] = b;
+  return op;
+}
+// the spelled-out twin of a pair op, or nullopt when the pair does not apply (e.g. the base does not parse)
+static std::optional<Op> pair_twin(const Op& a, const std::string& kind) {
+  Op b = a;
+  if (kind == "port") {
+    if (!a.args[0] || !a.args[4]) return std::nullopt;
+    // The Standard compares the protocol *string as given* with the special schemes (which are lower case): 'HTTPS'
+    // is not one, its port 443 stays. (A first version of this oracle lower-cased the protocol and raised a false
+    // alarm on exactly that case.)
+    std::string proto = *a.args[0];
+    uint16_t def = ada::scheme::get_special_port(proto);
+    if (def == 0 || *a.args[4] != std::to_string(def)) return std::nullopt;
+    b.args[4] = "";
+    return b;
+  }
+  if (!a.args[5] || !a.args[8]) return std::nullopt;
+  auto base = ada::parse<ada::url_aggregator>(*a.args[8]);
+  if (!base || base->has_opaque_path) return std::nullopt;
+  std::string proto(base->get_protocol());
+  if (!proto.empty() && proto.back() == ':') proto.pop_back();
+  std::string path(base->get_pathname());
+  size_t slash = path.find_last_of('/');
+  if (slash == std::string::npos) return std::nullopt;
+  b.args[8].reset();
+  b.args[0] = esc_pattern(proto);
+  b.args[3] = esc_pattern(base->get_hostname());
+  b.args[4] = esc_pattern(base->get_port());
+  b.args[5] = esc_pattern(path.substr(0, slash + 1)) + *a.args[5];
+  return b;
+}
+
 // ---- plan generation --------------------------------------------------------
 static Plan generate(uint64_t seed, uint64_t run, const std::map<std::string, std::string>& opts) {
   Plan p;
@@ -190,7 +293,13 @@ static Plan generate(uint64_t seed, uint64_t run, const std::map<std::string, st
     p.ops.emplace_back(0, gen_pattern_op(r, true));
     p.set("mask", pick_mask(r, kPatSites14, 1));
   } else {  // C15
-    p.ops.emplace_back(0, r.chance(1, 6) ? gen_pattern_op(r, false) : gen_component_op(r));
+    if (r.chance(1, 5)) {
+      std::string kind;
+      p.ops.emplace_back(0, gen_pair_op(r, kind));
+      p.cfg["pair"] = kind;
+    } else {
+      p.ops.emplace_back(0, r.chance(1, 6) ? gen_pattern_op(r, false) : gen_component_op(r));
+    }
     p.set("mask", pick_mask(r, kPatSites15, 8));
   }
   p.set("prob256", r.chance(2, 3) ? 256 : 128);
@@ -337,6 +446,36 @@ static Result execute(const Plan& p, Stats& st) {
     if (A[0].find("construct=ok") != std::string::npos) st.add("pattern.constructed");
   }
   if (p.property == "C15" && A[0].find("construct=ok") != std::string::npos) st.add("pattern.constructed");
+  if (p.property == "C15" && p.cfg.count("pair") && !ops.empty()) {
+    const std::string kind = p.cfg_s("pair");
+    auto twin = pair_twin(ops[0], kind);
+    if (twin) {
+      hs.off();
+      Hist<ada::url_aggregator> h1, h2;
+      std::string a = exec_op(ops[0], h1).text, b = exec_op(*twin, h2).text;
+      st.add("pair." + kind + ".checked");
+      res.hash = fnv1a(a + "#" + b, res.hash);
+      bool oka = a.find("construct=ok") != std::string::npos, okb = b.find("construct=ok") != std::string::npos;
+      std::string why;
+      if (oka != okb) why = std::string("construction ") + (oka ? "succeeds" : "fails") + " but the spelled-out twin " + (okb ? "succeeds" : "fails");
+      if (oka && okb) {
+        st.add("pair." + kind + ".constructed");
+        for (const char* f : {"p.protocol", "p.username", "p.password", "p.hostname", "p.port", "p.pathname", "p.search", "p.hash"}) {
+          std::string x = snap_field(a.substr(2), f), y = snap_field(b.substr(2), f);
+          if (x != y && why.empty()) why = std::string(f) + "='" + printable(x) + "' but the spelled-out twin has '" + printable(y) + "'";
+        }
+      }
+      if (!why.empty()) {
+        res.violation = true;
+        res.vclass = kind == "port" ? "default-port-elision-changes-outcome" : "base-inheritance-changes-outcome";
+        res.sig = why.substr(0, why.find('='));
+        res.detail = ops[0].pretty() + " vs " + twin->pretty() + ": " + why;
+        return res;
+      }
+    } else {
+      st.add("pair." + kind + ".not_applicable");
+    }
+  }
   return res;
 }
 
